@@ -11,7 +11,7 @@
      - s-expression codecs and run_C20.
    The model of git is modelled, not verified: it is tied to real git by the oracle correspondence. *)
 From Coq Require Import List ZArith String Ascii Bool Arith.
-From Verif Require Import Lib.Sexp.
+From Verif Require Import Lib.Sexp Model.C20_import.
 Import ListNotations.
 Open Scope string_scope. Open Scope list_scope. Open Scope nat_scope.
 
@@ -782,6 +782,7 @@ Definition run_C20 (x : sexp) : sexp :=
   | SList [SStr "steps-named"; SStr main; names; st; gs] =>
       or_bad (do nms <- as_list_of dec_pair_ns names; do s <- dec_repo st; do gs' <- as_list_of dec_gstep gs;
               Some (SList (run_gsteps (main, nms) gs' s)))
+  | SList (SStr "import-load" :: _) => run_import x
   | SList [SStr "normalize"; SStr r] => SStr (normalize r)
   | SList [SStr "checkout-name"; SStr r] => SStr (checkout_name r)
   | SList [SStr "location"; is_abs; parts] =>
